@@ -13,9 +13,7 @@ func (s *Entry) printOut(lvl Level, msg []byte) {
 		defer s.muWrite.Unlock()
 
 		// if a target user-defined writer can be SetLevel, set it before writing.
-		if x, ok := w.(LevelSettable); ok {
-			x.SetLevel(lvl)
-		}
+		notifyLevel(w, lvl)
 
 		n, err := w.Write(msg)
 		collectWrittenBytes(n)
